@@ -93,6 +93,47 @@ pub fn pool() -> Vec<(String, Message)> {
         t.coordinate_epoch_year = Some(f32::NAN);
         out.push(("1300 NaN epoch (fails at the last field)".into(), Message::Msg1300(t)));
     }
+    // legacy observation messages with 0..=12 default satellites (targets of many different,
+    // mostly unaligned bit lengths), and GLONASS ones failing inside the k-th satellite
+    // (frequency channel below its bias), i.e. aborting at many different bit positions
+    macro_rules! legacy_family {
+        ($v:ident, $t:ident, $s:ident) => {
+            for n in 0..=12usize {
+                let mut t = $t::default();
+                for _ in 0..n {
+                    t.satellites.push($s::default());
+                }
+                out.push((format!("{} x{} default satellites", stringify!($v), n), Message::$v(t)));
+            }
+        };
+    }
+    legacy_family!(Msg1001, Msg1001T, Msg1001Sat);
+    legacy_family!(Msg1002, Msg1002T, Msg1002Sat);
+    legacy_family!(Msg1003, Msg1003T, Msg1003Sat);
+    legacy_family!(Msg1004, Msg1004T, Msg1004Sat);
+    legacy_family!(Msg1009, Msg1009T, Msg1009Sat);
+    legacy_family!(Msg1010, Msg1010T, Msg1010Sat);
+    legacy_family!(Msg1011, Msg1011T, Msg1011Sat);
+    legacy_family!(Msg1012, Msg1012T, Msg1012Sat);
+    macro_rules! glo_failing_family {
+        ($v:ident, $t:ident, $s:ident, $max:expr) => {
+            for n in 1..=$max {
+                let mut t = $t::default();
+                for i in 0..n {
+                    let mut s = $s::default();
+                    if i == n - 1 {
+                        s.glo_satellite_freq_chan_number = -8;
+                    }
+                    t.satellites.push(s);
+                }
+                out.push((format!("{} x{} failing in the last satellite", stringify!($v), n), Message::$v(t)));
+            }
+        };
+    }
+    glo_failing_family!(Msg1009, Msg1009T, Msg1009Sat, 12usize);
+    glo_failing_family!(Msg1010, Msg1010T, Msg1010Sat, 8usize);
+    glo_failing_family!(Msg1011, Msg1011T, Msg1011Sat, 8usize);
+    glo_failing_family!(Msg1012, Msg1012T, Msg1012Sat, 8usize);
     // MSM failing after the header: unrecognised signal, satellite mismatch
     if let Some((_, m)) = out.iter().find(|(n, _)| n == "1077 8x8").cloned() {
         let mut a = m.clone();
@@ -209,7 +250,7 @@ pub fn c12(ctx: &Ctx) -> (Report, Meta) {
     rep.sample(json!({"history":["1004x31/ff","1300 NaN epoch (fails at the last field)"],"target":"1005:zero","oracle":"same bytes as a fresh builder"}));
     rep.sample(json!({"pool": pool.iter().map(|p| p.0.clone()).take(12).collect::<Vec<_>>()}));
     let meta = Meta {
-        rule: "pool = messages decoded from the zero / ones / testdata / counter payloads of every supported type (those the encoder refuses stay in the pool as failing operations) + maximum-length messages + messages without a wire form + messages failing at the first field, inside a list, at the last field. Breadth-first search from the fresh builder: state = (buffer, has_run) via hook H3, action = build(p); frontier states are re-created by replaying their shortest history. In every reachable state every pool message is built and compared with the fresh-builder result (public API only). The search runs until no new state appears (all finite histories over the pool) or a bound is hit. states = distinct builder states; transitions = builds compared".into(),
+        rule: "pool = messages decoded from the zero / ones / testdata / counter payloads of every supported type (those the encoder refuses stay in the pool as failing operations) + maximum-length messages + messages without a wire form + messages failing at the first field, inside a list (GLONASS legacy messages failing in their k-th satellite, k = 1..12, i.e. at many bit positions), at the last field + legacy messages with 0..=12 default satellites (targets of many bit lengths). Breadth-first search from the fresh builder: state = (buffer, has_run) via hook H3, action = build(p); frontier states are re-created by replaying their shortest history. In every reachable state every pool message is built and compared with the fresh-builder result (public API only). The search runs until no new state appears (all finite histories over the pool) or a bound is hit. states = distinct builder states; transitions = builds compared".into(),
         exhaustive: closed,
         bounds: json!({"max_depth": max_depth, "state_cap": cap_states, "pool": n}),
         assumptions: vec!["state deduplication reads the private buffer through hook H3; the verdict itself never does".into()],
